@@ -108,7 +108,7 @@ impl LogInnerManager {
         pre_term: u64,
         split_off_index: u64,
     ) -> anyhow::Result<LogInnerManager> {
-        let index_file = OpenOptions::new()
+        let mut index_file = OpenOptions::new()
             .read(true)
             .write(true)
             .create(true)
@@ -126,7 +126,7 @@ impl LogInnerManager {
             log_index: start_index,
             file_index: 4096,
         };
-        let (header, indexs, index_cursor, file_len) = if data_meta.len() == 0 {
+        let (header, mut indexs, mut index_cursor, file_len) = if data_meta.len() == 0 {
             //init
             let header = LogIndexHeaderDo {
                 first_index: start_index,
@@ -165,8 +165,33 @@ impl LogInnerManager {
                 file_len,
             )
         };
-        let (data_cursor, msg_count) =
-            Self::move_to_end(&mut data_file, indexs.last().unwrap(), start_index).await?;
+        // The data record is written before its index entry (and strip_log_to erases index entries
+        // before it truncates the data): after a kill between the two a whole interval of records
+        // can follow the last index entry. Write the missing entries now, otherwise the next entry
+        // that write() adds is read back as the entry of the skipped interval.
+        let index_interval = std::cmp::max(header.index_interval as u64, 1);
+        let (data_cursor, msg_count) = loop {
+            let last_index = indexs.last().unwrap().clone();
+            let (cursor, count) = Self::move_to_index_by_count(
+                &mut data_file,
+                &last_index,
+                start_index,
+                index_interval,
+            )
+            .await?;
+            if start_index + count < last_index.log_index + index_interval {
+                break (cursor, count);
+            }
+            let index_data = write_varint64(cursor - last_index.file_index);
+            index_file.seek(SeekFrom::Start(index_cursor)).await?;
+            index_file.write_all(&index_data).await?;
+            index_file.flush().await?;
+            index_cursor += index_data.len() as u64;
+            indexs.push(InnerIdxDto {
+                log_index: last_index.log_index + index_interval,
+                file_index: cursor,
+            });
+        };
         data_file.seek(SeekFrom::Start(data_cursor)).await?;
         log::info!(
             "data_cursor:{},{},{}|index:{},{},{}|pre_term:{}",
@@ -248,14 +273,6 @@ impl LogInnerManager {
         }
         //println!("next_index:{},{},{}",&next_index,&offset,&indexs.last().unwrap().file_index);
         Ok((indexs, offset as u64))
-    }
-
-    async fn move_to_end(
-        file: &mut tokio::fs::File,
-        last_index: &InnerIdxDto,
-        start_index: u64,
-    ) -> anyhow::Result<(u64, u64)> {
-        Self::move_to_index_by_count(file, last_index, start_index, 0xffff).await
     }
 
     async fn move_to_index_by_count(
